@@ -4,7 +4,8 @@ use crate::oracles::AuthorBindingObserver;
 use crate::plangen::{SetupOpts, Weights, plan_strategy_with};
 use crate::props::common::{base_report, run_plan};
 use crate::runner::{Args, CaseReport, Failure, Mode, RunPlan, Spec, Tier, drive, set_last_trace};
-use crate::world::{Plan, Regime};
+use crate::world::{Apply, Op, Plan, Regime};
+use proptest::prelude::*;
 
 pub fn exec(plan: &Plan, mode: Mode) -> Result<CaseReport, Failure> {
     let mut obs = AuthorBindingObserver {
@@ -38,6 +39,7 @@ pub fn main(args: &Args) -> i32 {
         sql_percent: sql,
         regimes: vec![Regime::Causal, Regime::Unrestricted],
         retention: 2..=5,
+        side_percent: 30,
         ..SetupOpts::default()
     };
     let weights = Weights {
@@ -48,12 +50,13 @@ pub fn main(args: &Args) -> i32 {
         self_update: 3,
         data: 2,
         immediate: 0,
+        side: 4,
         ..Weights::default()
     };
     let spec = Spec {
         id: "C04",
         level: "exploration",
-        rule: "message-rich histories in which members also send rumors with a chosen pubkey (own / another member's / an outsider's) and a chosen pre-set id (none / random / the id of a stored message of another author / of an own earlier message), and re-wrap captured MLS ciphertexts in fresh wrappers; after every delivery at every receiver: each stored message is attributed to the identity of the client that really produced it (content canaries), its id is the NIP-01 hash of the stored fields, messages of other authors stored before are bit-for-bit unchanged, no canary is stored twice. Non-trivial = a forged rumor or a replayed ciphertext was delivered; distinct = distinct plans".into(),
+        rule: "message-rich histories in which members also send rumors with a chosen pubkey (own / another member's / an outsider's) and a chosen pre-set id (none / random / the id of a stored message of another author / of an own earlier message), (or, from a stale client, the identity of whoever took over its leaf after it was removed - a quarter of the histories start with such a removal + addition), and re-wrap captured MLS ciphertexts in fresh wrappers; 30 % of the worlds carry a second live group on the same clients whose events (also re-tagged with this group's id) must never create or alter a message here; after every delivery at every receiver: each stored message is attributed to the identity of the client that really produced it (content canaries), its id is the NIP-01 hash of the stored fields, messages of other authors stored before are bit-for-bit unchanged, no canary is stored twice. Non-trivial = a forged rumor or a replayed ciphertext was delivered; distinct = distinct plans".into(),
         assumptions: vec![
             "message contents are unique canaries naming the producing client, so attribution is judged without trusting ids".into(),
         ],
@@ -65,7 +68,21 @@ pub fn main(args: &Args) -> i32 {
         args,
         spec,
         RunPlan { cases, workers: 16 },
-        || plan_strategy_with(&opts, &weights, len.clone()),
+        || {
+            // a quarter of the histories start with "an admin removes a member and adds a newcomer,
+            // applying both at once": the newcomer takes over the freed leaf while the removed
+            // member (not yet told) can still encrypt for the epoch it is in
+            (plan_strategy_with(&opts, &weights, len.clone()), 0u8..4, any::<u16>(), 0usize..6)
+                .prop_map(|(mut p, roll, target, at)| {
+                    if roll == 0 {
+                        let at = at.min(p.ops.len());
+                        p.ops.insert(at, Op::Add { m: 0, ts: 2, apply: Apply::Immediate });
+                        p.ops.insert(at, Op::Remove { m: 0, target, ts: 1, apply: Apply::Immediate, extra: 0 });
+                    }
+                    p
+                })
+                .boxed()
+        },
         exec,
     )
 }
